@@ -26,6 +26,25 @@ __all__ = [
 ]
 
 
+def subscripts_or_shape(array):
+    """
+    The subscripts of an array reference, with the declared shape entry
+    substituted for every full-range subscript ``:``; the declared shape
+    for a reference without subscripts.
+
+    This is what needs to be compared against the horizontal size
+    expressions to decide if the reference spans the horizontal dimension:
+    ``a``, ``a(:)`` and ``a(1:nlon)`` all do if ``a`` is declared ``a(nlon)``.
+    """
+    shape = array.shape
+    if not array.dimensions or not shape or len(shape) != len(array.dimensions):
+        return array.dimensions or shape
+    return tuple(
+        s if isinstance(d, sym.RangeIndex) and d.lower is None and d.upper is None and d.step is None else d
+        for d, s in zip(array.dimensions, shape)
+    )
+
+
 class RemoveLoopTransformer(Transformer):
     """
     A :any:`Transformer` that removes all loops over the specified
@@ -144,7 +163,7 @@ class SCCDevectorTransformation(Transformation):
                 # check if a horizontal array is passed as an argument, meaning we have a vector
                 # InlineCall, e.g. an array reduction intrinsic
                 for p in _params:
-                    if any(s in (p.dimensions or p.shape) for s in horizontal.size_expressions):
+                    if any(s in subscripts_or_shape(p) for s in horizontal.size_expressions):
                         separator_nodes = cls._add_separator(assign, section, separator_nodes)
 
         # Extract contiguous node sections between separator nodes
